@@ -250,6 +250,12 @@ func (w *world) judge(quiescent bool) {
 		if strings.HasPrefix(r.out, "other:") {
 			c.Count("requests_other_error", 1)
 			c.Notef("request %s via %s: %s", r.rq, r.via, r.out)
+			if !strings.HasPrefix(r.shape, "forced:") {
+				// every request of the stress workload is valid and the session is
+				// neither closed nor broken while it runs: the call may end with its
+				// reply or with its own context's error, nothing else
+				c.Violate("call:unexpected-error:"+r.via, "request %s (%s, plan %s) returned %q: neither its reply nor its own context's error", r.rq, r.via, r.shape, strings.TrimPrefix(r.out, "other:"))
+			}
 		}
 	}
 
